@@ -77,6 +77,7 @@ func checkC03(c *Check) {
 	c.Rule("C03.R3", "return address: the callback's success answer is a 302 to the RequestedURL stored at the redirect (C13.R3), reached on every path after the tokens were bound.", 2)
 	c.Rule("C03.R4", "`expiry unknown` is encoded the same way by both writers and understood by the reader: every write of AccessTokenExpiresAt computed from the IdP's expires_in happens under expires_in > 0 (otherwise the field stays zero or is carried over), and the expiry test applies the access-token clause only when the stored time is not zero.", 3)
 	c.Rule("C03.R5", "tolerant decoding: both IdP-response validators compare token_type with strings.EqualFold against \"Bearer\", agree on their common checks, reject only a negative expires_in, and the response decoder does not enable DisallowUnknownFields.", 4)
+	c.Rule("C03.R8", "the callback is recognised: the callback test returns true only when the request's path component equals the path of the configured callback URI and the host matches it (host:port, or the bare host with the scheme's default port) — otherwise the provider's redirect back would start a new login.", 1)
 	c.Rule("C03.R7", "no extra rejections: every `invalid` outcome of the ID-token validator and of the two IdP-response validators is one of the enumerated, standards-mandated reasons (token does not parse; required nonce absent / not a string / different; no audience element equals the client id; key source or signature verification failed; token_type not Bearer; negative expires_in; access token missing although forwarding is configured). Any other rejection could refuse a compliant provider's answer and is a violation.", 8)
 	c.Rule("C03.R6", "no second trip: from a successful read of unexpired tokens the OK writer is reachable without any token-endpoint call or login redirect.", 1)
 	if !requireModel(c, "C03.R1", m, "cb.", "redirect.cookie", "redirect.setstate", "redirect.gens", "hw.") {
@@ -163,6 +164,63 @@ func checkC03(c *Check) {
 	}
 	c.Obl(okReq, "C03.R3", "stored-return-url", P.Pos(R.Redirect.Pos()), "the URL stored for the return trip is scheme://host path [?query] of the request, verbatim (no re-encoding)",
 		"stored return URL: "+whyReq+" — the browser would not be returned to the URL it first asked for")
+
+	// ---- R8: the callback is recognised
+	{
+		cm := R.CallbackMatch
+		cff := FactsOf(cm)
+		okShape, nTrue := true, 0
+		why := ""
+		var parse *ssa.Call
+		for _, ci := range callsTo(cm, "net/url.Parse") {
+			parse, _ = ci.(*ssa.Call)
+		}
+		okParse := parse != nil && isGetterOn(parse.Common().Args[0], idOIDCConfig+".GetCallbackUri", func(v ssa.Value) bool { _, isP := v.(*ssa.Parameter); return isP })
+		for _, r := range returnsOf(cm) {
+			if b, isC := constBool(r.Results[0]); isC && !b {
+				continue
+			}
+			nTrue++
+			pathEq := false
+			for cond, pol := range cff.At(r) {
+				inner, neg := unwrapBool(cond)
+				bo, ok := inner.(*ssa.BinOp)
+				if !ok || bo.Op != token.EQL || (pol == neg) || !isString(bo.X.Type()) {
+					continue
+				}
+				isReqPath := func(v ssa.Value) bool {
+					sc, si, isC := asCall(resolveCell(stripConv(v)))
+					return isC && si == 0 && isCallTo(sc, fSplit)
+				}
+				isConfPath := func(v ssa.Value) bool {
+					base, f, okf := fieldLoad(resolveCell(stripConv(v)))
+					return okf && f != nil && f.Name() == "Path" && parse != nil && sameVal(base, extractOf(parse, 0))
+				}
+				if (isReqPath(bo.X) && isConfPath(bo.Y)) || (isReqPath(bo.Y) && isConfPath(bo.X)) {
+					pathEq = true
+				}
+			}
+			if !pathEq {
+				okShape, why = false, "a `true` outcome is not guarded by request path (splitter result #0) == path of the configured callback URI"
+			}
+		}
+		// the host test accepts host:port equality and the two default-port forms
+		hostForms := 0
+		for _, b := range cm.Blocks {
+			for _, ins := range b.Instrs {
+				if bo, ok := ins.(*ssa.BinOp); ok && bo.Op == token.EQL && isString(bo.X.Type()) {
+					for _, side := range []ssa.Value{bo.X, bo.Y} {
+						if hc, _, isC := asCall(resolveCell(stripConv(side))); isC && isCallTo(hc, pkgEnvoyAuth+".AttributeContext_HttpRequest.GetHost") {
+							hostForms++
+						}
+					}
+				}
+			}
+		}
+		c.Obl(okShape && nTrue >= 1 && okParse && hostForms >= 3, "C03.R8", "callback-test-shape", P.Pos(cm.Pos()),
+			"callback request ⇔ path component == configured callback path ∧ host matches (host:port, or host with the scheme's default port)",
+			fmt.Sprintf("callback test: %s (configured URI parsed: %v, host comparison forms: %d of 3)", why, okParse, hostForms))
+	}
 
 	// ---- R7: no extra rejections
 	c03R7(c, R, m)
@@ -817,6 +875,27 @@ func lastBranchCond(r *ssa.Return) ssa.Value {
 			return iff.Cond
 		}
 		b = p
+	}
+	return nil
+}
+
+// branchConds: the conditions of all the Ifs through which the return's block is entered directly.
+func branchConds(r *ssa.Return) []ssa.Value {
+	b := r.Block()
+	for hops := 0; hops < 4; hops++ {
+		var conds []ssa.Value
+		for _, p := range b.Preds {
+			if iff, ok := p.Instrs[len(p.Instrs)-1].(*ssa.If); ok {
+				conds = append(conds, iff.Cond)
+			}
+		}
+		if len(conds) > 0 {
+			return conds
+		}
+		if len(b.Preds) != 1 {
+			return nil
+		}
+		b = b.Preds[0]
 	}
 	return nil
 }
